@@ -670,6 +670,20 @@ static void gen_one_topology(unsigned long *budget) {
     for (unsigned i = 0; i < ng; i++) { emit("group %u %u", rng_below(100000), rng_chance(75) ? 1u : 0u); if (*budget) (*budget)--; }
     stat_hit("groups");
   }
+  if (rng_chance(22)) {   /* a whole level wrapped in user Groups whose dont_merge flags are MIXED: one protected Group protects the level (C08-r8) */
+    int depth = hwloc_topology_get_depth(topo);
+    int d = depth > 2 ? 1 + (int) rng_below((unsigned) depth - 2) : -1;      /* neither the root nor the PU level */
+    unsigned n = d > 0 ? hwloc_get_nbobjs_by_depth(topo, d) : 0;
+    if (n >= 2 && n <= 12) {
+      hwloc_obj_t objs[12]; unsigned forced = rng_below(n);
+      for (unsigned i = 0; i < n; i++) objs[i] = hwloc_get_obj_by_depth(topo, d, i);
+      for (unsigned i = 0; i < n; i++) {
+        if (rng_chance(15) && i != forced) continue;                         /* sometimes a partial row */
+        emit("group %lu %u", k_of_obj(objs[i]), (i == forced || rng_chance(35)) ? 1u : 0u); if (*budget) (*budget)--;
+      }
+      stat_hit("groups.mixed_row");
+    }
+  }
   /* side structures: a good share of the topologies get user distances, CPU kinds and memory attribute values; the bundled XML
    * files bring their own; both are observed (adopted) before the first restrict */
   int xml = line[5] == 'X';
